@@ -224,7 +224,7 @@ theorem step_inv (s : Store) (op : Op) (h : Inv s) (hop : OpOK s op) : Inv (step
       · rename_i l' hs; exact layerInv_same hl (undo_same hs)
       · exact hl
     | checkCurrent x o ser => exact hl
-    | pack P => exact layerInv_pack hl P
+    | pack P gc => exact layerInv_pack hl P
     | newOid draws => exact hl
     | push d => exact ⟨hl, layerInv_empty _ _⟩
     | pushWith cu d => exact ⟨hl, layerInv_empty _ _⟩
@@ -269,11 +269,13 @@ theorem step_inv (s : Store) (op : Op) (h : Inv s) (hop : OpOK s op) : Inv (step
           · rename_i c' hs; exact ⟨hb, layerInv_same hc (undo_same hs)⟩
           · exact ⟨hb, hc⟩
     | checkCurrent x o ser => exact ⟨hb, hc⟩
-    | pack P =>
+    | pack P gc =>
       simp only [step]
       split
       · exact ⟨hb, hc⟩
-      · exact ⟨hb, layerInv_pack hc P⟩
+      · split
+        · exact ⟨hb, hc⟩
+        · exact ⟨hb, layerInv_pack hc P⟩
     | newOid draws =>
       simp only [step]
       split <;> exact ⟨hb, hc⟩
